@@ -96,8 +96,10 @@ def g_scenario(c, n_sched=4):
             "schema_mode": c.choose(["prog", "sdl"]), "layout": [], "no_location": False}
 
 
-def run_once(env, sc, schedule):
+def run_once(env, sc, schedule, stop=None):
+    """stop (used by C06): None | {"kind": "aclose", "after": k} | {"kind": "abort", "after": k, "reason": r}"""
     from graphql import ExecutionResult, subscribe
+    from graphql.pyutils import AbortController
     from inspect import isawaitable
 
     m = env.m
@@ -107,7 +109,8 @@ def run_once(env, sc, schedule):
     sched = Sched(schedule)
     events_log, log = [], []
     plan = AsyncPlan(*sc["plan"])
-    resolve, resolve_type = make_async_resolvers(oracle, sched, plan, events_log, log, env.out_names)
+    stats = {"inflight": 0}
+    resolve, resolve_type = make_async_resolvers(oracle, sched, plan, events_log, log, env.out_names, stats=stats)
     records = [payload(root_type, e) for e in sc["events"]]
     src = {"started": 0, "finalized": 0, "aclose_calls": 0, "next_calls": 0, "emitted": 0}
     fail_at = sc["fail_at"]
@@ -184,20 +187,87 @@ def run_once(env, sc, schedule):
             return later()
         return Iter(kind == "class")
 
-    out = {"responses": [], "end": None, "single": None, "raised": None}
+    out = {"responses": [], "end": None, "single": None, "raised": None, "stop_done": False,
+           "stop_state": None, "prompt_violation": None, "awaiting_library": False}
+    kw = {}
+    controller = AbortController()
+    reason = None
+    frozen = {"on": False}
+    if stop is not None and stop["kind"] == "abort":
+        kw["abort_signal"] = controller.signal
+        reason = {"none": None, "exc": Boom("abort reason"), "str": "stop it"}[stop.get("reason", "none")]
+
+        def do_abort():
+            out["stop_done"] = True
+            out["stop_state"] = {"gates": len(sched.pending_gates()), "inflight": stats["inflight"],
+                                 "source_open": bool(src["started"] and not src["finalized"]),
+                                 "awaiting": out["awaiting_library"], "responses": len(out["responses"])}
+            frozen["on"] = True
+            controller.abort(reason)
+
+        sched.add_action("abort", lambda: (not out["stop_done"]) and len(out["responses"]) >= stop["after"]
+                         and out["awaiting_library"], do_abort)
+
+        def on_quiescent(s_):
+            if frozen["on"]:
+                frozen["on"] = False
+                if not s_.main_task.done() and out["awaiting_library"]:
+                    out["prompt_violation"] = ("after the abort the caller was still waiting at the next "
+                                               f"quiescence; gates pending {[g[0] for g in s_.pending_gates()][:4]}")
+
+        sched.on_quiescent = on_quiescent
+    out["reason"] = reason
+
+    async def lib(awaitable):
+        out["awaiting_library"] = True
+        try:
+            return await awaitable
+        finally:
+            out["awaiting_library"] = False
 
     async def main():
-        r = subscribe(env.schema, env.doc, root_value={"__typename": root_type, "__id": 0, "__depth": 0},
-                      variable_values=sc["variables"], operation_name="Op0", field_resolver=resolve,
-                      type_resolver=resolve_type, subscribe_field_resolver=subscribe_resolver)
-        if isawaitable(r):
-            r = await r
+        try:
+            r = subscribe(env.schema, env.doc, root_value={"__typename": root_type, "__id": 0, "__depth": 0},
+                          variable_values=sc["variables"], operation_name="Op0", field_resolver=resolve,
+                          type_resolver=resolve_type, subscribe_field_resolver=subscribe_resolver, **kw)
+            if isawaitable(r):
+                r = await lib(r)
+        except Exception as e:  # noqa: BLE001
+            if stop is None:
+                raise
+            out["end"] = "raised-creating"
+            out["raised"] = e
+            return
         if isinstance(r, ExecutionResult):
             out["single"] = r
             return
         it = r.__aiter__()
         while True:
+            if stop is not None and stop["kind"] == "aclose" and len(out["responses"]) == stop["after"]:
+                out["stop_done"] = True
+                out["stop_state"] = {"gates": len(sched.pending_gates()), "inflight": stats["inflight"],
+                                     "source_open": bool(src["started"] and not src["finalized"]),
+                                     "awaiting": True, "responses": len(out["responses"])}
+                await lib(it.aclose())
+                out["end"] = "closed"
+                return
             await sched.gate(f"pull:{len(out['responses'])}")
+            if stop is not None:
+                try:
+                    x = await lib(it.__anext__())
+                except StopAsyncIteration:
+                    out["end"] = "stop"
+                    break
+                except Exception as e:  # noqa: BLE001
+                    out["end"] = "error"
+                    out["raised"] = e
+                    try:
+                        await it.aclose()
+                    except Exception as e2:  # noqa: BLE001
+                        out["protocol_error"] = repr(e2)
+                    break
+                out["responses"].append(x)
+                continue
             try:
                 x = await it.__anext__()
             except StopAsyncIteration:
@@ -216,7 +286,8 @@ def run_once(env, sc, schedule):
         out["unhandled"] = list(sched.unhandled)
         sched.drain()
         out["tasks_left"] = len(sched.unfinished_tasks())
-        out["src"] = src
+        out["inflight_end"] = stats["inflight"]
+        out["src"] = dict(src)  # before the loop is closed: shutdown_asyncgens() would hide a leaked source
         return out
     finally:
         sched.close()
